@@ -392,3 +392,22 @@ def returned_values(g, params=()):
         elif lab not in ('raise', 'exc'):
             out.append((p, lab, [(ast.Constant(value=None), p)]))
     return out
+
+
+def partial_format(call):
+    """the text of `"<literal>".format(a, b, ..)` with its constant positional arguments written in and the other auto-numbered holes kept as `{}`;
+    None when `call` is not such a call"""
+    if not (isinstance(call, ast.Call) and isinstance(call.func, ast.Attribute) and call.func.attr == 'format'):
+        return None
+    lit = const_str(call.func.value)
+    if lit is None:
+        return None
+    out = lit
+    for a in call.args:
+        if '{}' not in out:
+            break
+        if isinstance(a, ast.Constant) and isinstance(a.value, (str, int)):
+            out = out.replace('{}', str(a.value), 1)
+        else:
+            out = out.replace('{}', '\0', 1)
+    return out.replace('\0', '{}')
